@@ -134,6 +134,85 @@ def victimsFor (e : Nat) : List (Nat × RTask × Bool) → List (List Nat × Boo
 def worldFail (wk : Walk) (c : Cfg) (k : Kind) (W : World) (sc : Scope) : World :=
   hitAll wk c k W ((affected sc W.roster).map (fun x => (x.1, x.2, true)))
 
+/-! ### the `environmentId` label of a message about a task
+
+  Every message an executor sends about a task (status update, device event) carries the label
+  `environmentId`: the environment the task was LAUNCHED FOR (executor: `knownEnvironmentId`,
+  stamped once). It is the task's environment only as long as the task stays with the
+  environment it was launched for: a task released by that environment (destroyed with
+  keepTasks) and claimed by a later one (acquireTasks, reuseUnlockedTasks), an executor that
+  sends no label at all, a label that fails to parse — all name NO environment of the world
+  (`none`), or ANOTHER live one (`some h`, h ≠ owner).
+  handleMessage / updateTaskStatus use the label for log fields only. handleDeviceEvent's
+  TASK_INTERNAL_ERROR case needs the environment (its state decides about the STOP request) and
+  gets it with `envs.environment(t.GetEnvironmentId())`: from the task's parent role
+  (`Cfg.envByTask`, `resolveEnv`). The alternative — `envs.environment(envId)`, envId the
+  label parsed at the top of the function for the log fields — is NOT the code; it is kept
+  switchable as the refuted variant: a label that names no environment makes the lookup fail
+  ("cannot find environment for DeviceEvent") and the event is dropped. -/
+
+/-- `failOne` for a given effect. -/
+def applyEffect (c : Cfg) (e : Effect) (s : Sys) (p : List Nat) (ready : Bool) : Sys :=
+  let r := match e.st with
+    | some st => updState s.f p st
+    | none => (s.f, none)
+  let f2 := match e.su with
+    | some su => (updStatus r.1 p su).1
+    | none => r.1
+  notify c { s with f := f2, stopReq := s.stopReq + (if e.stop then 1 else 0),
+                    roleOnly := if e.roleOnly then (p, ownState s p (roleStateAt s.f p)) :: s.roleOnly else s.roleOnly } r.2 ready
+
+/-- The environment handleDeviceEvent's TASK_INTERNAL_ERROR case handles the event in: index of
+    the environment `envs.environment(…)` returns; `none`: "cannot find environment". `lab`: what
+    the event's label names (`none`: no label / an id no environment of the world has). -/
+def resolveEnv (c : Cfg) (t : RTask) (lab : Option Nat) : Option Nat :=
+  if c.envByTask then t.owner else lab
+
+/-- TASK_INTERNAL_ERROR about a task whose role lives in environment `o`, handled in ANOTHER
+    environment `h` (label-resolving variant only): `running` is read off `h`, the role that is
+    told is the task's own (`t.GetParent()`, in `o`), the STOP request is `h`'s. -/
+def internalAcross (c : Cfg) (W : World) (o h : Nat) (p : List Nat) (ready : Bool) : World :=
+  match W.envs[o]?, W.envs[h]? with
+  | some so, some sh =>
+    let e := effect c .INTERNAL sh.env.st (critLeafAt so.f p)
+    let W1 : World := { W with envs := W.envs.set o (applyEffect c { e with stop := false } so p ready) }
+    if e.stop then
+      match W1.envs[h]? with
+      | some sh' => { W1 with envs := W1.envs.set h { sh' with stopReq := sh'.stopReq + 1 } }
+      | none => W1
+    else W1
+  | _, _ => W
+
+/-- The per-task body for a message that carries a label. Every kind but TASK_INTERNAL_ERROR
+    ignores the label (log fields). TASK_INTERNAL_ERROR: no environment found ⇒ the event is
+    dropped; the task's own environment ⇒ `hit`; another one ⇒ `internalAcross` (a task without a
+    parent role: nothing to tell, `GetTraits()` of a nil parent is not critical: nothing). -/
+def hitTagged (c : Cfg) (k : Kind) (W : World) (i : Nat) (t : RTask) (ready : Bool) (lab : Option Nat) : World :=
+  match k with
+  | .INTERNAL =>
+    match resolveEnv c t lab with
+    | none => W
+    | some h =>
+      match t.owner with
+      | some o => if o = h then hit c k W i t ready else internalAcross c W o h t.path ready
+      | none => W
+  | _ => hit c k W i t ready
+
+/-- The walk over a snapshot whose entries carry the label of the message about them. -/
+def hitAllTagged (wk : Walk) (c : Cfg) (k : Kind) (W : World) : List (Nat × RTask × Bool × Option Nat) → World
+  | [] => W
+  | (i, t, rdy, lab) :: rest =>
+    let W1 := hitTagged c k W i t rdy lab
+    if !wk.perTask && t.owner.isNone then W1 else hitAllTagged wk c k W1 rest
+
+/-- Forget the labels. -/
+def untag (ts : List (Nat × RTask × Bool × Option Nat)) : List (Nat × RTask × Bool) :=
+  ts.map (fun x => (x.1, x.2.1, x.2.2.1))
+
+/-- A failure event of kind `k` about `sc` whose messages carry the label `lab`. -/
+def worldFailTagged (wk : Walk) (c : Cfg) (k : Kind) (W : World) (sc : Scope) (lab : Option Nat) : World :=
+  hitAllTagged wk c k W ((affected sc W.roster).map (fun x => (x.1, x.2, true, lab)))
+
 /-! ### internal steps: per environment -/
 
 def wenabled (W : World) (x : Nat × Label) : Bool :=
